@@ -13,7 +13,15 @@
     - every reference that is valid before and after denotes the same
       function BY VARIABLE NAME,
     - every externally referenced node (and the terminal) survives, and
-      only nodes of the old level [x+1] can disappear at all. *)
+      only nodes of the old level [x+1] can disappear at all.
+
+    With a bounded table ([max_nodes = Some n]) there is one more outcome: the
+    pre-check of [swap] (dd 6c37b8b) refuses the call with [RuntimeError]
+    BEFORE anything is written ([s' = s]; for [all_levels=None] only the
+    initial collection has happened).  Once the pre-check has passed, no
+    [find_or_add] inside the swap can meet a full table: the swap never stops
+    midway (the counting argument is [FindOrAdd.find_or_add_room] threaded
+    through the loop as [SwapB.room]). *)
 From DD Require Import Swap SwapJ.
 
 Theorem C07_swap_correct s x al L r s' :
@@ -22,6 +30,7 @@ Theorem C07_swap_correct s x al L r s' :
   levels_ok s al →
   swap x (x + 1) (Some al) s = (r, s') →
   r = Err EOracle ∨
+  (r = Err ERuntime ∧ s' = s ∧ is_Some (max_nodes s)) ∨
   ∃ oldn newn al', r = Ok ((oldn, newn), al') ∧
     Inv s' ∧ Counts s' L ∧ levels_ok s' al' ∧ oldn = len s ∧ newn = len s' ∧
     (∀ v l, vars s !! v = Some l →
@@ -46,6 +55,11 @@ Theorem C07_swap_correct_any s x y all_levels L r s' :
   match all_levels with Some al => levels_ok s al | None => True end →
   swap x y all_levels s = (r, s') →
   r = Err EOracle ∨
+  (r = Err ERuntime ∧ is_Some (max_nodes s) ∧
+   match all_levels with
+   | Some _ => s' = s
+   | None => collect_garbage None s = (Ok tt, s')
+   end) ∨
   ∃ oldn newn al', r = Ok ((oldn, newn), al') ∧
     Inv s' ∧ Counts s' L ∧ levels_ok s' al' ∧ oldn ≤ len s ∧ newn = len s' ∧
     (∀ v l, vars s !! v = Some l →
@@ -63,6 +77,9 @@ Theorem C07_swap_pub_correct s x y L r s' :
   y = x + 1 ∨ x = y + 1 → x < nvars s → y < nvars s →
   swap_pub x y s = (r, s') →
   r = Err EOracle ∨
+  (r = Err ERuntime ∧ is_Some (max_nodes s) ∧
+   ∃ s1, collect_garbage None (s <| last_len := None |>) = (Ok tt, s1) ∧
+         s' = s1 <| last_len := last_len s |>) ∨
   ∃ oldn newn al', r = Ok ((oldn, newn), al') ∧
     Inv s' ∧ Counts s' L ∧ levels_ok s' al' ∧ oldn ≤ len s ∧ newn = len s' ∧
     (∀ v l, vars s !! v = Some l →
